@@ -1,5 +1,7 @@
-import ImathVerif.Lemmas.FixedArrayLemmas
+import ImathVerif.Lemmas.FixedArrayWrite
+import ImathVerif.Lemmas.StringTableLemmas
 import ImathVerif.Model.FixedArrayWitness
+import ImathVerif.Model.BufferProtocol
 /-!
 # C19 — PyImath arrays index like Python sequences and honour read-only protection
 
@@ -362,10 +364,391 @@ theorem writable_monotone (cfg : Cfg) (s : State) (op : Op) (i : Nat) (a : View)
         have : b = a := by
           simp [State.view, ha] at hb; exact hb.symm
         subst this
-        exact ⟨{ b with writable := false }, by simp [List.getElem?_set, hi], rfl, fun _ => rfl⟩
-      · exact ⟨a, by simp [List.getElem?_set, hvi, ha], rfl, id⟩
+        exact ⟨{ b with writable := false }, by simp [hi], rfl, fun _ => rfl⟩
+      · exact ⟨a, by simp [hvi, ha], rfl, id⟩
     · exact same
   case iaddScalar v x => split <;> first | exact same | exact wh _
   case iaddVector v d => split <;> first | exact same | exact wh _
+
+/-! ## Refinement to Python list semantics (statements; proofs in `Lemmas/FixedArrayWF.lean`, `FixedArrayWrite.lean`)
+
+`View.toList h v` is what Python sees: element `i` is `_ptr[(masked ? _indices[i] : i) * _stride]`.
+`View.WF (shape h) v` says the view's addressable cells lie inside its allocation (it is established
+by every constructor, see `alloc_WF`, `getslice_refines`, `getsliceMask_refines`, and preserved by
+every write, which never changes `shape`).  Each theorem returns `.ok`, so in particular the
+operation performs NO access outside the buffer (`Err.oob` is the model's only out-of-buffer outcome). -/
+
+/-- `canonical_index` = Python's index normalisation, any sign -/
+theorem canonical_index_refines {α : Type} (l : List α) (i : Int) :
+    (match canonicalIndex l.length i with
+      | .ok k => l[k]?
+      | .error _ => none) = PyList.getitem l i := canonicalIndex_pylist l i
+
+/-- the position `canonical_index` returns is inside the array -/
+theorem canonical_index_in_bounds {len : Nat} {i : Int} {k : Nat} (h : canonicalIndex len i = .ok k) : k < len :=
+  canonicalIndex_lt h
+
+/-- slice normalisation (CPython's algorithm + closed-form length + `size_t` arithmetic) selects exactly the
+    indices of the language reference's walk, for all signs of start/stop/step -/
+theorem slice_indices_refine {n : Nat} (hn : (n : Int) ≤ PY_SSIZE_T_MAX) {a b c : Option Int}
+    (hc : ∀ v, c = some v → -PY_SSIZE_T_MAX ≤ v) {s : SliceIdx}
+    (h : extractSliceIndices n (.slice a b c) = .ok s) :
+    PyList.sliceIndices n a b c = some ((List.range s.slicelength).map s.at) :=
+  extract_slice_spec hn hc h
+
+/-- every index computed from any subscript is inside the array -/
+theorem slice_indices_in_bounds {n : Nat} (hn : (n : Int) ≤ PY_SSIZE_T_MAX) {idx : PyIdx} {s : SliceIdx}
+    (h : extractSliceIndices n idx = .ok s) (i : Nat) (hi : i < s.slicelength) : s.at i < n :=
+  slice_at_lt' hn h i hi
+
+/-- FULL-STRENGTH CLAIM "every slice with step ≠ 0 is accepted" — what `extract_slice_indices` does instead:
+    forward slices always; backward slices unless the normalised start is -1. -/
+theorem slice_accepted_forward {n : Nat} (hn : (n : Int) ≤ PY_SSIZE_T_MAX) {a b c : Option Int}
+    (hpos : 0 < c.getD 1) : ∃ s, extractSliceIndices n (.slice a b c) = .ok s :=
+  extract_slice_forward_ok hn hpos
+
+theorem slice_rejected_only_if {n : Nat} (hn : (n : Int) ≤ PY_SSIZE_T_MAX) {a b c : Option Int}
+    (hc : ∀ v, c = some v → -PY_SSIZE_T_MAX ≤ v) {e : Err}
+    (h : extractSliceIndices n (.slice a b c) = .error e) :
+    (c = some 0 ∧ e = .stepZero) ∨
+    (e = .domainError ∧ c.getD 1 < 0 ∧ PyList.boundDown n a ((n : Int) - 1) = -1) :=
+  extract_slice_error hn hc h
+
+/-- **The full-strength slice claim is FALSE for the code as it is**: `a[::-1]` on an empty array, and
+    `a[-7::-2]` on a 5-element array, are `[]` in Python and raise (`std::domain_error`) here.
+    (The `s < 0` test of `extract_slice_indices` rejects the legal start `-1` of an empty backward slice.) -/
+theorem slice_any_sign_false :
+    ¬ (∀ (n : Nat) (a b c : Option Int), c ≠ some 0 → (n : Int) ≤ PY_SSIZE_T_MAX →
+        ∃ s, extractSliceIndices n (.slice a b c) = .ok s) := by
+  intro h
+  obtain ⟨s, hs⟩ := h 0 none none (some (-1)) (by decide) (by decide)
+  have hw : extractSliceIndices 0 (.slice none none (some (-1))) = .error .domainError := by decide
+  rw [hw] at hs
+  cases hs
+
+theorem slice_any_sign_witnesses :
+    extractSliceIndices 0 (.slice none none (some (-1))) = .error .domainError ∧
+    PyList.sliceIndices 0 none none (some (-1)) = some [] ∧
+    extractSliceIndices 5 (.slice (some (-7)) none (some (-2))) = .error .domainError ∧
+    PyList.sliceIndices 5 (some (-7)) none (some (-2)) = some [] := by decide
+
+theorem getitem_refines {h : Heap} {v : View} (w : v.WF (shape h)) (i : Int) :
+    getitem h v i = (match PyList.getitem (v.toList h) i with
+      | some x => .ok x
+      | none => .error .indexError) := FixedArray.getitem_refines w i
+
+theorem getslice_refines {h : Heap} {v : View} (w : v.WF (shape h)) {a b c : Option Int}
+    (hc : ∀ x, c = some x → -PY_SSIZE_T_MAX ≤ x) {h' : Heap} {f : View}
+    (hr : getslice h v (.slice a b c) = .ok (h', f)) :
+    PyList.getslice (v.toList h) a b c = some (f.toList h') ∧
+    f.WF (shape h') ∧ f.writable = true ∧ f.indices = none ∧ f.buf = h.length ∧
+    (∃ vals, h' = h ++ [vals]) := FixedArray.getslice_refines w hc hr
+
+theorem getmask_refines {h : Heap} {f mask : View} (wf : f.WF (shape h)) (wm : mask.WF (shape h))
+    (hun : f.indices = none) (hlen : f.length = mask.length) :
+    ∃ m, getsliceMask h f mask = .ok m ∧
+      m.toList h = PyList.select (f.toList h) (mask.toList h) ∧
+      m.WF (shape h) ∧ m.buf = f.buf ∧ m.writable = f.writable ∧
+      m.indices = some (PyList.maskPositions (mask.toList h)) := getsliceMask_refines wf wm hun hlen
+
+theorem setitem_scalar_slice_refines {h : Heap} {v : View} (w : v.WF (shape h)) (hw : v.writable = true)
+    {a b c : Option Int} (hc : ∀ y, c = some y → -PY_SSIZE_T_MAX ≤ y) {s : SliceIdx}
+    (hs : extractSliceIndices v.length (.slice a b c) = .ok s) (x : Int) :
+    ∃ h', setitemScalar h v (.slice a b c) x = .ok h' ∧ shape h' = shape h ∧ Frame v.buf h h' ∧
+      PyList.setsliceScalar (v.toList h) a b c x = some (v.toList h') ∧
+      (∀ p, (∀ i, i < s.slicelength → v.cellPos (s.at i) ≠ p) → cellAt h' v.buf p = cellAt h v.buf p) :=
+  setitemScalar_slice_refines w hw hc hs x
+
+theorem setitem_scalar_int_refines {h : Heap} {v : View} (w : v.WF (shape h)) (hw : v.writable = true)
+    (i : Int) (x : Int) :
+    (∀ k, canonicalIndex v.length i = .ok k →
+      ∃ h', setitemScalar h v (.int i) x = .ok h' ∧ shape h' = shape h ∧ Frame v.buf h h' ∧
+        v.toList h' = (v.toList h).set k x) ∧
+    (∀ e, canonicalIndex v.length i = .error e → setitemScalar h v (.int i) x = .error .indexError) :=
+  setitemScalar_int_refines w hw i x
+
+theorem setitem_vector_slice_refines {h : Heap} {v data : View} (w : v.WF (shape h)) (wd : data.WF (shape h))
+    (hw : v.writable = true) (hne : data.buf ≠ v.buf)
+    {a b c : Option Int} (hc : ∀ y, c = some y → -PY_SSIZE_T_MAX ≤ y) {s : SliceIdx}
+    (hs : extractSliceIndices v.length (.slice a b c) = .ok s) (hlen : data.length = s.slicelength) :
+    ∃ h', setitemVector h v (.slice a b c) data = .ok h' ∧ shape h' = shape h ∧ Frame v.buf h h' ∧
+      PyList.setsliceVector (v.toList h) a b c (data.toList h) = some (v.toList h') ∧
+      (∀ p, (∀ i, i < s.slicelength → v.cellPos (s.at i) ≠ p) → cellAt h' v.buf p = cellAt h v.buf p) :=
+  setitemVector_slice_refines w wd hw hne hc hs hlen
+
+theorem setitem_vector_length_mismatch {h : Heap} {v data : View} (hw : v.writable = true) {idx : PyIdx}
+    {s : SliceIdx} (hs : extractSliceIndices v.length idx = .ok s) (hlen : data.length ≠ s.slicelength) :
+    setitemVector h v idx data = .error .srcDimMismatch := setitemVector_length_error hw hs hlen
+
+theorem setitem_scalar_mask_refines {h : Heap} {v mask : View} (w : v.WF (shape h)) (wm : mask.WF (shape h))
+    (hw : v.writable = true) (hun : v.indices = none) (hne : mask.buf ≠ v.buf) (hlen : mask.length = v.length)
+    (x : Int) :
+    ∃ h', setitemScalarMask h v mask x = .ok h' ∧ shape h' = shape h ∧ Frame v.buf h h' ∧
+      v.toList h' = PyList.setMaskScalar (v.toList h) (mask.toList h) x :=
+  setitemScalarMask_refines w wm hw hun hne hlen x
+
+theorem setitem_vector_mask_refines {h : Heap} {v mask data : View} (w : v.WF (shape h))
+    (wm : mask.WF (shape h)) (wd : data.WF (shape h)) (hw : v.writable = true) (hun : v.indices = none)
+    (hnm : mask.buf ≠ v.buf) (hnd : data.buf ≠ v.buf) (hlen : mask.length = v.length)
+    (hdl : data.length = v.length) :
+    ∃ h', setitemVectorMask h v mask data = .ok h' ∧ shape h' = shape h ∧ Frame v.buf h h' ∧
+      v.toList h' = PyList.setMaskSame (v.toList h) (mask.toList h) (data.toList h) :=
+  setitemVectorMask_same_refines w wm wd hw hun hnm hnd hlen hdl
+
+theorem ifelse_refines {h : Heap} {v choice other : View} (w : v.WF (shape h)) (wc : choice.WF (shape h))
+    (wo : other.WF (shape h)) (hw : v.writable = true) (hl1 : choice.length = v.length)
+    (hl2 : other.length = v.length) :
+    ∃ h' f, ifelseVector h v choice other = .ok (h', f) ∧
+      f.toList h' = PyList.ifelse (choice.toList h) (v.toList h) (other.toList h) ∧
+      f.WF (shape h') ∧ f.buf = h.length ∧ (∃ vals, h' = h ++ [vals]) :=
+  ifelseVector_refines w wc wo hw hl1 hl2
+
+/-- the mismatched-length masks and right-hand sides raise -/
+theorem mask_length_mismatch (h : Heap) (f mask : View) (hun : f.indices = none) (hl : f.length ≠ mask.length) :
+    getsliceMask h f mask = .error .dimMismatch := by
+  simp [getsliceMask, View.isMasked, hun, matchDimension, hl]
+
+/-- every error leaves the whole state (heap and objects) exactly as it was -/
+theorem error_leaves_state (cfg : Cfg) (s : State) (op : Op) (e : Err) (h : (step cfg s op).2 = .error e) :
+    (step cfg s op).1 = s := by
+  have wh : ∀ r : Except Err Heap, (s.withHeap r).2 = .error e → (s.withHeap r).1 = s := by
+    intro r; cases r <;> simp [State.withHeap]
+  have wn : ∀ r : Except Err (Heap × View), (s.withNew r).2 = .error e → (s.withNew r).1 = s := by
+    intro r; cases r <;> simp [State.withNew, State.push]
+  cases op <;> simp only [step] at h ⊢
+  case alloc vals => simp [State.push] at h
+  case len v => cases hv : s.view v <;> simp [hv] at h ⊢
+  case getitem v j =>
+    cases hv : s.view v with
+    | error e' => simp
+    | ok a => simp only; cases getitem s.heap a j <;> simp
+  case getslice v idx =>
+    cases hv : s.view v with
+    | error e' => simp
+    | ok a => simp only [hv] at h ⊢; exact wn _ h
+  case getmask v m =>
+    cases hv : s.view v with
+    | error e' => simp
+    | ok a =>
+      cases hm : s.view m with
+      | error e' => simp
+      | ok mk =>
+        simp only [hv, hm] at h ⊢
+        cases hg : getsliceMask s.heap a mk with
+        | error e' => simp
+        | ok f => simp [hg, State.push] at h
+  case copy v =>
+    cases hv : s.view v with
+    | error e' => simp
+    | ok a => simp [hv, State.push] at h
+  case convert v =>
+    cases hv : s.view v with
+    | error e' => simp
+    | ok a => simp only [hv] at h ⊢; exact wn _ h
+  case setScalar v idx x =>
+    cases hv : s.view v with
+    | error e' => simp
+    | ok a => simp only [hv] at h ⊢; exact wh _ h
+  case setScalarMask v m x =>
+    cases hv : s.view v with
+    | error e' => simp
+    | ok a =>
+      cases hm : s.view m with
+      | error e' => simp
+      | ok mk => simp only [hv, hm] at h ⊢; exact wh _ h
+  case setVector v idx d =>
+    cases hv : s.view v with
+    | error e' => simp
+    | ok a =>
+      cases hm : s.view d with
+      | error e' => simp
+      | ok mk => simp only [hv, hm] at h ⊢; exact wh _ h
+  case setVectorMask v m d =>
+    cases hv : s.view v with
+    | error e' => simp
+    | ok a =>
+      cases hm : s.view m with
+      | error e' => simp
+      | ok mk =>
+        cases hd : s.view d with
+        | error e' => simp
+        | ok da => simp only [hv, hm, hd] at h ⊢; exact wh _ h
+  case ifelseScalar v c x =>
+    cases hv : s.view v with
+    | error e' => simp
+    | ok a =>
+      cases hm : s.view c with
+      | error e' => simp
+      | ok mk => simp only [hv, hm] at h ⊢; exact wn _ h
+  case ifelseVector v c o =>
+    cases hv : s.view v with
+    | error e' => simp
+    | ok a =>
+      cases hm : s.view c with
+      | error e' => simp
+      | ok mk =>
+        cases hd : s.view o with
+        | error e' => simp
+        | ok da => simp only [hv, hm, hd] at h ⊢; exact wn _ h
+  case makeReadOnly v =>
+    cases hv : s.view v with
+    | error e' => simp
+    | ok a => simp [hv] at h
+  case iaddScalar v x =>
+    cases hv : s.view v with
+    | error e' => simp
+    | ok a => simp only [hv] at h ⊢; exact wh _ h
+  case iaddVector v d =>
+    cases hv : s.view v with
+    | error e' => simp
+    | ok a =>
+      cases hm : s.view d with
+      | error e' => simp
+      | ok mk => simp only [hv, hm] at h ⊢; exact wh _ h
+
+/-! ### deviations of the code as it is from list semantics (model witnesses, replayed on the real module) -/
+
+/-- `ifelse` on a READ-ONLY array raises as soon as `choice` selects one of its elements: the loop body uses
+    the non-const `(*this)[i]`.  (Python-list semantics: reading never fails.) -/
+theorem ifelse_readonly_quirk :
+    (run Cfg.repaired State.empty [.alloc [1, 2], .makeReadOnly 0, .alloc [0, 1], .ifelseScalar 0 1 9]).2.getLast?
+      = some (.error .readOnly) ∧
+    (run Cfg.repaired State.empty [.alloc [1, 2], .makeReadOnly 0, .alloc [0, 0], .ifelseScalar 0 1 9]).2.getLast?
+      = some (.ok (.newView 2)) := by decide
+
+/-- `m[mask2] = x` on a masked reference `m` ignores `mask2` altogether (every referenced element is set) -/
+theorem setitem_scalar_mask_on_masked_ignores_mask :
+    (exec Cfg.repaired State.empty
+      [.alloc [10, 11, 12], .alloc [1, 1, 0], .getmask 0 1, .alloc [1, 0], .setScalarMask 2 3 7]).heap[0]?
+      = some [7, 7, 12] := by decide
+
+/-! ## Converting constructor -/
+
+/-- as written, `FloatArray(a[mask])` carries the source's raw indices over a dense copy: element 0 of the
+    result addresses cell 1 of a 1-cell buffer — an out-of-bounds read; repaired: a dense copy. -/
+theorem convert_masked_oob_asWritten :
+    (run Cfg.asWritten State.empty witnessConvert).2.getLast? = some (.error .oob) ∧
+    (run Cfg.repaired State.empty witnessConvert).2.getLast? = some (.ok (.int 11)) := by decide
+
+/-- repaired converting constructor: a well-formed dense copy of exactly the source's elements -/
+theorem convert_repaired_refines {cfg : Cfg} (hc : cfg.convertDense = true) {h : Heap} {v : View}
+    (w : v.WF (shape h)) :
+    ∃ h' f, convert cfg h v = .ok (h', f) ∧ f.toList h' = v.toList h ∧ f.WF (shape h') ∧ f.buf = h.length := by
+  have hA := alloc_WF h (v.toList h) (by rw [View.toList_length]; exact w.lenOk)
+  refine ⟨_, _, ?_, hA.2, hA.1, rfl⟩
+  unfold convert
+  simp [w.readAll, hc]
+
+/-! ## StringTable / StringArray -/
+open ImathVerif.StringTable in
+/-- **bijection between indices and strings**, preserved by `intern` (any interning order) -/
+theorem string_table_bijection {t : Table} (h : Inv t) (i : Nat) (s : String) :
+    lookupIdx t i = some s ↔ lookupStr t s = some i := lookup_bijection h i s
+
+open ImathVerif.StringTable in
+theorem string_table_intern {t : Table} (h : Inv t) (hsz : t.length ≤ indexMax) (s : String) :
+    ∃ t' i, intern t s = some (t', i) ∧ InternPost t s t' i := intern_post h hsz s
+
+open ImathVerif.StringTable in
+theorem string_table_empty_inv : Inv [] := ⟨fun k hk => by simp at hk, by simp⟩
+
+open ImathVerif.StringTable in
+/-- **a string array element reads back the last string stored there**, for ANY sequence of element
+    assignments (any interning order, any repetitions): the array keeps representing the plain list. -/
+theorem string_array_reads_last_stored :
+    ∀ (ops : List (Nat × String)) (a : ArrState) (strs : List String), Repr a strs →
+      a.table.length + ops.length ≤ indexMax → (∀ op ∈ ops, op.1 < strs.length) →
+      ∃ a', setMany a ops = some a' ∧ Repr a' (ops.foldl (fun l p => l.set p.1 p.2) strs) := by
+  intro ops
+  induction ops with
+  | nil => intro a strs r _ _; exact ⟨a, rfl, r⟩
+  | cons op ops ih =>
+    intro a strs r hsz hin
+    obtain ⟨a1, h1, r1, hg⟩ := setitemString_repr r (by simp at hsz; omega) (hin op (by simp)) op.2
+    obtain ⟨a2, h2, r2⟩ := ih a1 (strs.set op.1 op.2) r1 (by simp at hsz ⊢; omega)
+      (fun o ho => by simpa using hin o (by simp [ho]))
+    exact ⟨a2, by simp [setMany, h1, h2], by simpa using r2⟩
+
+open ImathVerif.StringTable in
+/-- non-vacuity: a freshly constructed `StringArray(s, n)` represents `[s]*n` -/
+theorem string_array_create_repr (s : String) (n : Nat) :
+    ∃ a, createUniform s n = some a ∧ Repr a (List.replicate n s) := by
+  refine ⟨⟨[⟨0, s⟩], List.replicate n 0⟩, by simp [createUniform, intern, findStr, insert, findIdx, indexMax], ?_⟩
+  refine ⟨⟨fun k hk => by simp at hk; subst hk; rfl, by simp⟩, by simp, ?_⟩
+  intro i hi
+  simp at hi
+  simp [getitemString, hi, lookupIdx, findIdx]
+
+/-! ## Buffer protocol -/
+open ImathVerif.BufferProtocol
+
+/-- repaired `numBytes`: `len = product(shape) x itemsize`, for every element type, length and stride -/
+theorem buffer_len_repaired (t : ElemTy) (length stride : Nat) :
+    (getbuffer BufCfg.repaired t length stride).consistent := by
+  simp [PyBuffer.consistent, getbuffer, numBytes, BufCfg.repaired]
+
+/-- as written it holds for dense scalar arrays (IntArray, FloatArray, ...) -/
+theorem buffer_len_asWritten_scalar (t : ElemTy) (hd : t.dims = 1) (length : Nat) :
+    (getbuffer BufCfg.asWritten t length 1).consistent := by
+  simp [PyBuffer.consistent, getbuffer, numBytes, BufCfg.asWritten, apiShape, hd, prod]
+
+def v3f : ElemTy := ⟨4, 3, 2, 12, 'f'⟩
+
+/-- ... and is FALSE in general: `memoryview(V3fArray(5))` has shape (5,3), itemsize 4, and `len` 20 -/
+theorem buffer_len_asWritten_false :
+    ¬ (∀ (t : ElemTy) (length stride : Nat), (getbuffer BufCfg.asWritten t length stride).consistent) := by
+  intro h
+  have := h v3f 5 1
+  revert this
+  decide
+
+theorem buffer_len_asWritten_witness :
+    (getbuffer BufCfg.asWritten v3f 5 1).len = 20 ∧ (getbuffer BufCfg.asWritten v3f 5 1).shape = [5, 3] ∧
+    (getbuffer BufCfg.repaired v3f 5 1).len = 60 := by decide
+
+/-- repaired `...ArrayFromBuffer`: accepted sources have the array's own element format and size, and the new
+    array holds exactly the source bytes; the copy can never overrun the allocation -/
+theorem from_buffer_repaired (t : ElemTy) (src : Src) (bytes : List Nat)
+    (h : fromBuffer BufCfg.repaired t src = .ok bytes) :
+    bytes = src.bytes ∧ src.format = [t.format] ∧ src.itemsize = t.atomicSize ∧
+      bytes.length = src.shape0 * t.sizeofT := by
+  unfold fromBuffer at h
+  simp only [BufCfg.repaired] at h
+  split at h
+  · simp at h
+  · by_cases h1 : src.format = [t.format]
+    · by_cases h2 : src.itemsize = t.atomicSize
+      · by_cases h3 : src.bytes.length = src.shape0 * t.sizeofT
+        · simp [h1, h2, h3] at h
+          subst h
+          simp [h1, h2, h3]
+        · simp [h1, h2, h3] at h
+      · simp [h1, h2] at h
+    · simp [h1] at h
+
+theorem from_buffer_repaired_never_oob (t : ElemTy) (src : Src) :
+    fromBuffer BufCfg.repaired t src ≠ .error .oob := by
+  unfold fromBuffer
+  simp only [BufCfg.repaired]
+  split
+  · simp
+  · by_cases h1 : src.format = [t.format]
+    · by_cases h2 : src.itemsize = t.atomicSize
+      · by_cases h3 : src.bytes.length = src.shape0 * t.sizeofT
+        · simp [h1, h2, h3]
+        · simp [h1, h2, h3]
+      · simp [h1, h2]
+    · simp [h1]
+
+def intTy : ElemTy := ⟨4, 1, 1, 4, 'i'⟩
+
+/-- as written only byte-order prefixes are rejected: three doubles are accepted for an `int` array and
+    24 bytes are copied into a 12-byte allocation (heap overflow); three signed bytes are accepted too -/
+theorem from_buffer_asWritten_unchecked :
+    fromBuffer BufCfg.asWritten intTy ⟨['d'], 8, 3, List.replicate 24 1⟩ = .error .oob ∧
+    (∃ bytes, fromBuffer BufCfg.asWritten intTy ⟨['b'], 1, 3, List.replicate 3 1⟩ = .ok bytes) ∧
+    fromBuffer BufCfg.repaired intTy ⟨['d'], 8, 3, List.replicate 24 1⟩ = .error .mismatch ∧
+    fromBuffer BufCfg.repaired intTy ⟨['b'], 1, 3, List.replicate 3 1⟩ = .error .mismatch := by
+  refine ⟨by decide, ⟨List.replicate 3 1 ++ List.replicate 9 0, by decide⟩, by decide, by decide⟩
 
 end ImathVerif.C19
